@@ -77,7 +77,17 @@ func NewStrListDecoder(reuseRecords bool) *StrListDecoder {
 	return d
 }
 
+func minUint32(a, b uint32) uint32 {
+	if a < b {
+		return a
+	}
+	return b
+}
+
+// strSlice returns an empty slice to append n strings to. n may come from an
+// untrusted stream, so no more than 1024 entries are allocated up front.
 func (d *StrListDecoder) strSlice(n uint32) []string {
+	n = minUint32(n, 1024)
 	if d.strs != nil {
 		if n > uint32(cap(d.strs)) {
 			d.strs = make([]string, 0, n)
